@@ -117,7 +117,7 @@ pub fn run(tier: &str, seed: u64) -> i32 {
     let local = Inst::fresh();
     let table: Vec<String> = local.method_names().iter().map(|s| s.to_string()).collect();
     drop(local);
-    let src = std::fs::read_to_string("/repo/src/api/api.rs").unwrap_or_default();
+    let src = std::fs::read_to_string(format!("{}/src/api/api.rs", std::env::var("VERIF_REPO").unwrap_or_else(|_| "/repo".into()))).unwrap_or_default();
     let mut declared: BTreeSet<String> = BTreeSet::new();
     for l in src.lines() {
         if let Some(i) = l.find("#[method(name = \"") {
